@@ -36,6 +36,10 @@ var cseqDocs = map[string]string{
 	"file:///w/r/d1.json":      `{"definitions":{"T":{"title":"d1-T","properties":{"u":{"$ref":"d2.json#/definitions/U"}}}}}`,
 	"file:///w/r/d2.json":      `{"definitions":{"U":{"title":"d2-U"}}}`,
 	"file:///w/r/nulldoc.json": `null`,
+	// a document holding a schema with an anchor-style id
+	"file:///w/r/d3.json": `{"definitions":{"W":{"id":"#w","type":"string"},"V":{"type":"integer"}}}`,
+	// a document that does not decode into the generic form the loader promises (a number out of range)
+	"file:///w/r/bad.json": `{"definitions":{"T":{"type":"integer","maximum":1e400}}}`,
 }
 
 // the pool of calls
@@ -51,6 +55,11 @@ var cseqPool = map[string]string{
 	"C2": `{"definitions":{"T":{"type":"boolean"}},"properties":{"p":{"$ref":"#/definitions/T"}}}`,
 	// a document whose whole content is null, referenced twice
 	"N": `{"allOf":[{"$ref":"nulldoc.json"},{"$ref":"nulldoc.json"},{"$ref":"d2.json#/definitions/U"}]}`,
+	// into a document with an anchor-style id, then elsewhere into the same document
+	"W": `{"$ref":"d3.json#/definitions/W"}`,
+	"V": `{"$ref":"d3.json#/definitions/V"}`,
+	// a document that fails to decode
+	"X": `{"$ref":"bad.json#/definitions/T"}`,
 	// nothing to resolve
 	"E": `{"type":"string"}`,
 }
